@@ -136,6 +136,13 @@ def float_image(raw: dict) -> dict:
                 sv_ratio=float(sv[raw['rankH']] / sv[0]) if singular and sv[0] > 0 else None)
 
 
+def threshold_for(raw: dict) -> float:
+    """the identification threshold a results object of this raw outcome is built with (and must be re-loaded with)"""
+    import zlib
+
+    return 1e-5 if zlib.crc32(repr(sorted(raw.items(), key=lambda kv: kv[0])).encode()) % 2 == 0 else 1000.0
+
+
 def build(raw: dict):
     """raw outcome (as emitted) -> biogeme.results.bioResults, through RawResults.__init__."""
     import numpy as np
@@ -183,9 +190,7 @@ def build(raw: dict):
         warnings.simplefilter('ignore')  # ill-conditioned matrix warnings of scipy (patched variants of the code)
         # the identification threshold only decides which eigenvalues are REPORTED as an identification issue: no
         # statistic depends on it.  Half of the outcomes are built with a threshold above every eigenvalue.
-        import zlib
-
-        thr = 1e-5 if zlib.crc32(repr(sorted(raw.items(), key=lambda kv: kv[0])).encode()) % 2 == 0 else 1000.0
+        thr = threshold_for(raw)
         return bioResults(RawResults(model, theta, fgHb, bootstrap=boot), identification_threshold=thr)
 
 
